@@ -39,6 +39,10 @@ func c17Proc(ctx *core.Ctx, idx int) core.Result {
 		if r.Chance(1, 5) {
 			sb.WriteByte('\r') // a line that ends in CR LF keeps its CR
 		}
+		if r.Chance(1, 8) {
+			lines = append(lines, "\n") // an empty line
+			continue
+		}
 		lines = append(lines, fmt.Sprintf("%d:", i)+sb.String()+"\n")
 	}
 	input := strings.Join(lines, "")
